@@ -56,7 +56,8 @@ class Flag(BaseType, IntFlag, metaclass=EnumMetaType):
             return result
 
     def __eq__(self, other: int | Flag) -> bool:
-        if isinstance(other, Flag) and other.__class__ is not self.__class__:
+        if isinstance(other.__class__, EnumMetaType) and other.__class__ is not self.__class__:
+            # A member of another flag, or of an enum
             return False
 
         # Python <= 3.10 compatibility
